@@ -553,6 +553,23 @@ func (x *Exec) callStatic(fn *ssa.Function, args []Value) []Value {
 	if x.e.UFStubs[name] {
 		return x.ufStub(fn, args)
 	}
+	if x.e.Havoc[name] {
+		x.e.stubs[name+" (result replaced by an arbitrary value: every outcome of this choice function is explored)"] = true
+		res := fn.Signature.Results()
+		out := make([]Value, res.Len())
+		for i := 0; i < res.Len(); i++ {
+			rt := res.At(i).Type()
+			nm := x.strConst("havoc_" + sanitize(fn.Name()))
+			if isBool(rt) {
+				out[i] = x.nondet(nm, 0)
+			} else if w, _, ok := x.e.lay.intInfo(rt); ok {
+				out[i] = x.nondet(nm, w)
+			} else {
+				efail("havoc of %s: result type %s unsupported", name, rt)
+			}
+		}
+		return out
+	}
 	if r, ok := x.e.Redirect[name]; ok {
 		i := strings.LastIndex(r, ".")
 		pkg := x.e.P.Pkgs[r[:i]]
